@@ -182,7 +182,7 @@ def guardModel (W : Nat) : Op → List Arg → Option G
   | .fDiv, [.flt a, .flt b] =>
       if ¬ (a.canonical ∧ b.canonical ∧ sameKind a b) then none else some (guardFDiv W a b)
   | .fSqrt, [.flt a] => if ¬ a.canonical then none else some (guardFSqrt a)
-  | .fUlp, [.flt a] => if ¬ a.canonical then none else some (guardFUlp a)
+  | .fUlp, [.flt a] => if ¬ a.canonical ∨ a.prec > 2 ^ 62 then none else some (guardFUlp a)   -- hypothesis of fbig_ulp_guard_partial
   | .qFromParts, [.int _, .int d, .kind _] => if d < 0 then none else some (guardQFromParts d.natAbs)
   | .qNearest, [.int _, .int d, .kind _, .int l] | .qNextUp, [.int _, .int d, .kind _, .int l]
   | .qNextDown, [.int _, .int d, .kind _, .int l] => if d ≤ 0 ∨ l < 0 then none else some (guardQLimit l.natAbs)
